@@ -143,6 +143,7 @@ type caseSpec struct {
 	latency       time.Duration // of the honest seed
 	repeatUnchoke bool          // the seed answers every Interested with Unchoke, not only the first
 	end           string        // close | kill-blocked | cancel-blocked
+	huge          bool          // g.PieceSize and g.Length describe a torrent too large to materialise (sim.BuildHuge)
 }
 
 func genCase(rt *rapid.T) caseSpec {
@@ -302,7 +303,21 @@ func runCase(c caseSpec) (fail string, labels map[string]bool) {
 		config.MemoryMark = 1 << 30
 	}
 	defer func() { config.MemoryMark = 1 << 30 }()
-	x, err := sim.Build(c.g, "")
+	var x *sim.Tor
+	var err error
+	if c.huge {
+		// true hashes for the pieces the reader's range touches, and one either side
+		var real []int
+		n := int((c.g.Length + c.g.PieceSize - 1) / c.g.PieceSize)
+		for i := int(c.off/c.g.PieceSize) - 1; i <= int((c.off+c.len)/c.g.PieceSize)+1; i++ {
+			if i >= 0 && i < n {
+				real = append(real, i)
+			}
+		}
+		x, err = sim.BuildHuge(c.g.PieceSize, c.g.Length, c.g.Seed, real)
+	} else {
+		x, err = sim.Build(c.g, "")
+	}
 	if err != nil {
 		return "build: " + err.Error(), labels
 	}
@@ -337,7 +352,17 @@ func runCase(c caseSpec) (fail string, labels map[string]bool) {
 	}
 	sim.Settle()
 
-	F := x.Content[c.off : c.off+c.len]
+	var F []byte
+	if c.huge {
+		for o := c.off; o < c.off+c.len; {
+			i := int(o / x.PieceSize)
+			d := x.Data(i, o-int64(i)*x.PieceSize, c.off+c.len-o)
+			F = append(F, d...)
+			o += int64(len(d))
+		}
+	} else {
+		F = x.Content[c.off : c.off+c.len]
+	}
 	rctx, rcancel := context.WithCancel(context.Background())
 	defer rcancel()
 	rd := t.NewReader(rctx, c.off, c.len)
@@ -688,4 +713,30 @@ func TestC02EvictedWhileHeld(t *testing.T) {
 		}
 		stats.Case(fmt.Sprintf("held/%v", prefill), true, append(l, "evicted-while-held")...)
 	}
+}
+
+// Beyond 4 GiB: a reader over the tail of a torrent whose size does not fit
+// in 32 bits and whose piece size does not divide 2^32 - the last piece's
+// length, the block offsets and the end of file are all 64-bit quantities.
+func TestC02HugeTail(t *testing.T) {
+	for _, g := range []struct{ ps, length int64 }{{48 * 1024, 1<<32 + 1}, {48 * 1024, 1<<32 + 40000}, {80 * 1024, 1<<32 + 81920*3 + 5}, {16 * 1024, 1<<32 + 16384}, {48 * 1024, 3<<31 + 12345}} {
+		for _, span := range []int64{1, 20000, 120000} {
+			c := caseSpec{g: sim.Geometry{PieceSize: g.ps, Length: g.length, Seed: 77}, off: g.length - span, len: span, huge: true, fast: true, idleRate: 0, end: "close",
+				steps: []step{{Kind: "read", N: 7000}, {Kind: "read", N: 70000}, {Kind: "seek", Off: -1, Whence: io.SeekEnd}, {Kind: "read", N: 100}, {Kind: "seek", Off: 0, Whence: io.SeekStart}, {Kind: "read", N: 200000}, {Kind: "read", N: 10}}}
+			var fail string
+			var labels map[string]bool
+			leak := sim.Bubble(t, func() { fail, labels = runCase(c) })
+			if fail != "" {
+				if len(fail) > 2000 {
+					fail = fail[:2000] + " ..."
+				}
+				t.Fatalf("torrent of %d bytes in pieces of %d, reader over the last %d bytes: %s", g.length, g.ps, span, fail)
+			}
+			if leak != "" {
+				t.Fatalf("leak: %s", leak)
+			}
+			_ = labels
+		}
+	}
+	stats.Case("huge-tail", true, "reader-over-the-tail-beyond-4GiB")
 }
